@@ -34,7 +34,7 @@ def cells(tier, seed):
         if refs.flen(wc) == refs.flen(wr):
             continue
         out.append({'wc': wc, 'wr': wr, 'mode': rnd.choice(refs.MODES), 'J': rnd.choice([1, 1, 2, 3]),
-                    'shape': list(rnd.choice(SHAPES)), 'N': rnd.choice([1, 2]), 'C': rnd.choice([1, 2, 3])})
+                    'shape': list(rnd.choice(SHAPES)), 'N': rnd.choice([1, 2, 4]), 'C': rnd.choice([1, 2, 3, 4])})
     return out
 
 
@@ -96,6 +96,30 @@ def run_cell(cell, seed):
         changed = [k for k, v in m_.state_dict().items() if not torch.equal(v, before[k])]
         out.append(res(HELD, case, 'M-ALIAS', ratio=0.0) if not changed else
                    res(VIOLATED, case, 'M-ALIAS', 'module buffers %s changed when the caller edited its own filter arrays' % changed))
+    # the same four filters in the other containers a caller may hold them in (lists, (L,1) column arrays as
+    # in the library's own DTCWT tables, one stacked (4,L) array when the lengths agree, a list instead of a
+    # tuple): the module must be the one built from the tuple of 1-D arrays, which is compared with pywt below
+    xf = util.make_input('randn', [cell['N'], cell['C']] + sp, seed + 31)
+    for direction, ctor, synth, refm in (('forward', lambda a: pw.DWTForward(J=J, wave=a, mode=mode), False, fwd),
+                                         ('inverse', lambda a: pw.DWTInverse(wave=a, mode=mode), True, inv)):
+        base4 = arrs(wc, synth) + arrs(wr, synth)
+        forms = [('tuple of lists', tuple(list(a) for a in base4)),
+                 ('tuple of (L,1) column arrays', tuple(a.reshape(-1, 1).copy() for a in base4)),
+                 ('list of arrays', [a.copy() for a in base4])]
+        if len(set(len(a) for a in base4)) == 1:
+            forms.append(('stacked (4,L) array', np.stack(base4)))
+        want = {k: v for k, v in refm.state_dict().items()}
+        for fname, arg in forms:
+            case = {'cell': cell, 'dir': direction, 'form': fname, 'input': 'filters'}
+            with util.default_dtype(torch.float64):
+                okm, m_ = util.call_lib(ctor, arg)
+            if not okm:
+                out.append(res(core.SKIPPED, case, 'M-FORM', 'this container is refused: %r' % (m_,)))
+                continue
+            got = m_.state_dict()
+            bad = [k for k in want if k not in got or got[k].shape != want[k].shape or not torch.equal(got[k], want[k])]
+            out.append(res(HELD, case, 'M-FORM', ratio=0.0) if not bad else
+                       res(VIOLATED, case, 'M-FORM', 'filter buffers %s differ from those built from the tuple of 1-D arrays' % bad))
     pyr = None
     for kind in ['impulse', 'randn', rnd.choice(['dynrange', 'alt', 'outlier', 'ramp'])]:
         x = util.impulses(sp) if kind == 'impulse' else util.make_input(kind, [cell['N'], cell['C']] + sp, seed)
